@@ -95,6 +95,56 @@ def top_fragments(root):
     return out
 
 
+def _swap_children(parent, a, b):
+    ch = list(parent)
+    i, j = ch.index(a), ch.index(b)
+    ch[i], ch[j] = ch[j], ch[i]
+    parent[:] = ch
+
+
+def reorder_nodes(root, mode, arg=None):
+    """changes the order in which the nodes (<n>) of a fragment are listed - ids, bonds and everything
+    drawn stay as they are.  reverse: every fragment lists its nodes backwards; begin-after-end /
+    begin-before-end: for every stereo bond in turn the two nodes are swapped where needed so that the
+    Begin atom comes after / before the End atom; swap-stereo-bond j: just the two nodes of the j-th
+    stereo-marked bond change places."""
+    frags = list(root.iter("fragment"))
+    if mode == "reverse":
+        for fr in frags:
+            ch = list(fr)
+            slots = [i for i, c in enumerate(ch) if c.tag == "n"]
+            ns = [ch[i] for i in slots][::-1]
+            for i, n in zip(slots, ns):
+                ch[i] = n
+            fr[:] = ch
+        return
+    marked = []
+    for fr in frags:
+        byid = {n.get("id"): n for n in fr if n.tag == "n"}
+        for bd in fr:
+            if bd.tag == "b" and bd.get("Display") in STEREO_DISPLAYS and bd.get("B") in byid and bd.get("E") in byid:
+                marked.append((fr, byid[bd.get("B")], byid[bd.get("E")]))
+    if mode == "swap-stereo-bond":
+        if arg < len(marked):
+            fr, nb, ne = marked[arg]
+            _swap_children(fr, nb, ne)
+        return
+    for fr, nb, ne in marked:
+        ch = list(fr)
+        b_first = ch.index(nb) < ch.index(ne)
+        if (mode == "begin-after-end" and b_first) or (mode == "begin-before-end" and not b_first):
+            _swap_children(fr, nb, ne)
+
+
+def n_marked_bonds(path):
+    root = ET.parse(path).getroot()
+    n = 0
+    for fr in root.iter("fragment"):
+        ids = {x.get("id") for x in fr if x.tag == "n"}
+        n += sum(1 for bd in fr if bd.tag == "b" and bd.get("Display") in STEREO_DISPLAYS and bd.get("B") in ids and bd.get("E") in ids)
+    return n
+
+
 def add_content(root, what, where):
     """adds an object that carries no label and no chemistry of the labelled fragments: a lone-atom
     (bond-less) fragment, an unlabelled bonded fragment far away, a text that is not bold, an empty group."""
@@ -271,6 +321,8 @@ def build_variant(src, steps, dst):
                 elif n.get("AtomNumber") is None and (st[1] == "add-all" or (st[1] == "add-ap" and is_ap) or (st[1] == "add-atoms" and not is_ap)):
                     n_new += 1
                     n.set("AtomNumber", f"L{n_new}")
+        elif kind == "reorder-nodes":
+            reorder_nodes(root, st[1], st[2] if len(st) > 2 else None)
         elif kind == "add":
             add_content(root, st[1], st[2])
         elif kind == "identity":
@@ -292,6 +344,8 @@ def vclass(steps):
             names.append(f"atomnumber-{st[1]}")
         elif st[0] == "add":
             names.append(f"add-{st[1]}")
+        elif st[0] == "reorder-nodes":
+            names.append("reorder-nodes")
         else:
             names.append(st[0])
     return "+".join(names) if names else "identity"
@@ -575,7 +629,7 @@ def mirror_class(fr, g):
 
 
 class Rec:
-    __slots__ = ("obs", "picked", "ok", "vols", "const_ok", "digest", "mark", "mirror_exact")
+    __slots__ = ("obs", "picked", "ok", "vols", "const_ok", "digest", "mark", "mirror_exact", "token")
 
     def __init__(self):
         self.obs = None
@@ -584,6 +638,7 @@ class Rec:
         self.vols = {}
         self.const_ok = False
         self.mirror_exact = None
+        self.token = None
         self.digest = None
         self.mark = {}
 
@@ -813,6 +868,17 @@ def analyse(ctx, src_name, path, steps, only=None, count=True, base=None):
             ctx.outcome(("bad", tuple(s for s, _ in bad)))
             continue
         r.const_ok = True
+        # where every parsed atom is drawn (page position of the node, preceded by the position of the
+        # placeholder that holds it): identifies an atom across rewrites that change the listing order
+        tok = {}
+        for kk, i in mapping.items():
+            a = fr.atoms[kk]
+            t = (a.xy,)
+            if len(kk) > 1:
+                p = fr.elt[kk[0]].get("p")
+                t = (tuple(map(float, p.split()[:2])) if p else None, a.xy)
+            tok[i] = t
+        r.token = tok if len(set(tok.values())) == len(tok) else None
         # ---- geometry ----------------------------------------------------------------------------
         coords = o["coords"]
         if coords.shape != (len(o["atoms"]), 3) or not np.all(np.isfinite(coords)):
@@ -951,6 +1017,51 @@ def compare(ctx, src_name, steps, back, base, var, mirrored_frag_ids=None):
                 continue
         if rb.obs is None or rv.obs is None:
             continue
+        if any(st[0] == "reorder-nodes" for st in steps):
+            if rb.token is None or rv.token is None or not (rb.ok and rv.ok):
+                continue
+            where = {t: i for i, t in rv.token.items()}
+            if set(where) != set(rb.token.values()):
+                viol(f"variant[{vc}]:constitution-changed", f"{src_name}[{k!r}]: the atoms are drawn at other places after the nodes were listed in another order")
+                continue
+            perm = [where[rb.token[i]] for i in range(len(rb.token))]  # base index -> variant index
+            lab = (lambda t: t[:5]) if any(st[0] in ("renumber", "atomnumber") for st in steps) else (lambda t: t[:6])
+            inv = {v: b for b, v in enumerate(perm)}
+            vb = sorted((tuple(sorted((inv[x[0]], inv[x[1]]))), x[2], x[3]) for x in rv.obs["bonds"])
+            bb = sorted((tuple(sorted((x[0], x[1]))), x[2], x[3]) for x in rb.obs["bonds"])
+            if [lab(rb.obs["atoms"][i]) for i in range(len(perm))] != [lab(rv.obs["atoms"][perm[i]]) for i in range(len(perm))] or vb != bb:
+                viol(f"variant[{vc}]:constitution-changed", f"{src_name}[{k!r}]: atoms/bonds differ (matched by drawing position) after the nodes were listed in another order")
+                continue
+            cp = rv.obs["coords"][perm]
+            ctx.add_note("reordered_models_compared")
+            bad_centre = None
+            for key, v in rb.vols.items():
+                if abs(v) >= T_NONPLANAR:
+                    w = nvol(cp[key[0]], cp[list(key[1])])
+                    if not (v * w > 0):
+                        bad_centre = (key, v, w)
+                        break
+            if bad_centre is not None:
+                key, v, w = bad_centre
+                viol(f"variant[{vc}]:handedness-changed[{rb.mark[key]}]", f"{src_name}[{k!r}]: centre atom {key[0]} neighbours {key[1]}: signed volume {v:+.3f} -> {w:+.3f} although only the order in which the nodes are listed changed ({steps})")
+                continue
+            top = [i for i in range(len(perm)) if len(rb.token[i]) == 1]
+            if len(top) < len(perm):
+                # contracted groups are oriented by join's clash search, which sees what has been joined
+                # before (document order): their rotamer is a conformational choice, not something drawn.
+                # Compared: the outermost atoms, up to the common translation that join applies
+                full = np.abs(cp - rb.obs["coords"])
+                if np.max(full) > 1e-9:
+                    ctx.add_note("fragments_whose_contracted_groups_change_rotamer_with_the_listing_order")
+                a0, b0 = cp[top], rb.obs["coords"][top]
+                dev = np.zeros_like(cp)
+                dev[top] = np.abs((a0 - a0.mean(axis=0)) - (b0 - b0.mean(axis=0)))
+            else:
+                dev = np.abs(cp - rb.obs["coords"])
+            if not (np.max(dev) <= 1e-9):
+                worst = int(np.argmax(dev.max(axis=1)))
+                viol(f"variant[{vc}]:coordinates-differ[{'at-ring-mark' if 'at-ring-mark' in rb.mark.values() else 'other'}]", f"{src_name}[{k!r}]: the model depends on the order in which the nodes are listed (atom {worst} moves by {np.round(dev[worst], 4).tolist()} A; {steps})")
+            continue
         strip = (lambda t: t[:5]) if any(s[0] in ("renumber", "atomnumber") for s in steps) else (lambda t: t[:6])
         if [strip(t) for t in rb.obs["atoms"]] != [strip(t) for t in rv.obs["atoms"]] or rb.obs["bonds"] != rv.obs["bonds"] or (rb.obs["charge"], rb.obs["mult"]) != (rv.obs["charge"], rv.obs["mult"]):
             viol(f"variant[{vc}]:constitution-changed", f"{src_name}[{k!r}]: atoms/bonds/charge/multiplicity differ between the bundled file and its {vc} rewrite")
@@ -1049,6 +1160,9 @@ def menu(ctx, path):
     singles += [["renumber", "offset", 100000 + 1000 * (seed % 50)], ["renumber", "compact"]]
     singles += [["atomnumber", "add-all"], ["atomnumber", "remove-all"]]
     singles += [["add", "lone-atom", w] for w in ("first", "last", "middle", "new-group-first", "existing-group")]
+    singles += [["reorder-nodes", "reverse"], ["reorder-nodes", "begin-after-end"], ["reorder-nodes", "begin-before-end"]]
+    if ctx.thorough:
+        singles += [["reorder-nodes", "swap-stereo-bond", j] for j in range(n_marked_bonds(path))]
     singles += [["add", "lone-atom", "between-labels-and-fragments"]]
     singles += [["add", "far-fragment", "last"], ["add", "plain-text", "first"], ["add", "empty-group", "first"]]
     if ctx.thorough:
@@ -1060,7 +1174,7 @@ def menu(ctx, path):
         ks = [k for k in range(1, n_top) if k != 1 + seed % 7]
         variants += [[["permute", "rotate", k]] for k in ks]
         variants += [[["permute", "labels-first"]], [["permute", "labels-last"]], [["renumber", "reversed"]]]
-        base = [["mirror"], ["translate", tr[0][0], tr[0][1]], ["translate", tr[1][0], tr[1][1]], ["permute", "reverse"], ["permute", "rotate", 2 + seed % 5], ["permute", "labels-first"], ["renumber", "compact"], ["renumber", "reversed"], ["renumber", "offset", 777000], ["atomnumber", "add-all"], ["atomnumber", "remove-all"], ["add", "lone-atom", "first"], ["add", "far-fragment", "middle"]]
+        base = [["mirror"], ["translate", tr[0][0], tr[0][1]], ["translate", tr[1][0], tr[1][1]], ["permute", "reverse"], ["permute", "rotate", 2 + seed % 5], ["permute", "labels-first"], ["renumber", "compact"], ["renumber", "reversed"], ["renumber", "offset", 777000], ["atomnumber", "add-all"], ["atomnumber", "remove-all"], ["add", "lone-atom", "first"], ["add", "far-fragment", "middle"], ["reorder-nodes", "reverse"], ["reorder-nodes", "begin-after-end"]]
         for a, b in itertools.permutations(base, 2):
             if a[0] == b[0]:
                 continue
@@ -1115,6 +1229,7 @@ def run(ctx):
         "access histories on one CDXMLFile object: every access (by label or by integer index, after the caller edited an earlier result in place, with other labels in between) must equal the first access as it was before any edit, and must not share atoms, bonds or the coordinate array with a molecule handed out before",
         "added content: a bond-less (lone atom) fragment, an unlabelled bonded fragment far from everything, a text that is not bold and an empty group carry no label and none of the labelled chemistry: every label must give a molecule equal in full (atoms, labels, bonds, coordinates bit for bit, charge, multiplicity, name) to the one from the untouched file",
         "exact mirror relation: where all stereo marks of a fragment are plain Bold/Hash bonds or wedges on chain (non-ring) bonds of the outermost fragment, the model of the mirrored drawing must be the z -> -z image of the model coordinate by coordinate (1e-9 A); it is not demanded for wedge marks on ring bonds (the parser's ring-fusion displacement moves y by sign*0.5, 1 A off an exact mirror image on the unchanged tree), for marks inside contracted groups (re-oriented by join's clash search) and for multi-attachments - there only the signs of the signed volumes are compared",
+        "listing order of the nodes: listing the nodes of a fragment backwards, or swapping the two nodes of a stereo bond in the document, changes nothing that is drawn: atoms are matched by drawing position and the per-centre handedness and the full coordinates (1e-9 A) must be those of the bundled file; for fragments with contracted groups the coordinates of the outermost atoms are compared up to a common translation and the groups' atoms through the handedness only (join orients a group by a clash search over what was joined before it, so the rotamer follows the listing order on the unchanged tree)",
         "atom order is not demanded: the parsed molecule is matched to the drawing in document order and otherwise by graph isomorphism (networkx)",
     ]
     files = bundled_files()
